@@ -218,6 +218,9 @@ def consume_tests(ctx, crate):
         nxt = {p_ for p_ in crate.bodies if p_.endswith("BMOCIter as std::iter::Iterator>::next")}
         e = Engine(crate, opaque={isin} | nxt); e.run(fn); ctx.functions |= e.visited_fns
         calls = [ev for ev in e.events.values() if ev.callee == isin]
+        if not calls and not b.has_loops():
+            # no loop of its own (the walk is an iterator adaptor with the test in a closure): nothing to read here
+            ctx.not_decided("%s: written with an iterator adaptor, its test is in a closure this rule does not read" % short); continue
         okc = bool(calls) and all(ev.args[0] == ('p', 'low_resolution') or ev.args[0] == ('deref', ('p', 'low_resolution')) or (ev.argvals and ev.argvals[0] is None and 'low_resolution' in str(ev.args[0])) for ev in calls)
         rets = {ev.ret for ev in calls}
         # the helpers compare nothing themselves (flags and the answer of is_in only): any ordering comparison is a rewrite of the test
@@ -283,7 +286,7 @@ def helper_loops_advance(ctx, crate, clause="merge-skeleton"):
         short = h.split("::")[-1]
         ctx.report(clause, short + ":every-round-advances-the-cursor", not bad, "every cycle of its cursor loops passes through BMOCIter::next (or a helper that always calls it)" if not bad else
                    "%s: the loop headed at bb%s can go round without advancing the cursor (no call of BMOCIter::next on that cycle)" % (short, bad[0]), at=b.span, kind="N")
-    ctx.floor("cursor-loops-of-the-helpers", n, 4)
+    ctx.floor("cursor-helpers-analysed", len(helpers), 4)
 
 
 def run(ctx):
